@@ -64,7 +64,7 @@ def one(ctx, i):
     ctx.count(f'demes{D}'); ctx.count(f'r={cfg["r"]}'); ctx.count(f'n_unl={cfg["n_unl"]}'); ctx.count(f'n{n}')
     ctx.case(dict(cfg=cfg, states=k_states, real=real), gen.cfg_key(cfg) if cfg['r'] > 0 and k_states >= 5 else None)
     ctx.count(f'states={k_states}')
-    if 3 * k_states > (70 if quick else 170):
+    if 3 * k_states > (70 if quick else 120):
         ctx.skipped += 1; ctx.count('too-large-for-model')
     else:
         Tq = C.frac(T)
@@ -77,11 +77,11 @@ def one(ctx, i):
             'tbl.loci.cov01': ([loc(TBL, 0), loc(TBL, 1)], True),
         }
         names_ = list(specs)
-        if quick and k_states >= 20:
+        if (quick and k_states >= 20) or k_states >= 30:
             # the fixed-point exponential of the model costs ~10 s per second-order statistic at Van Loan dimension 69: the quick
             # tier compares all first-order statistics and two of the six second-order ones (chosen at random) for such cases
             second = [x for x in names_ if len(specs[x][0]) == 2]
-            keep = set(rng.sample(second, 2))
+            keep = set(rng.sample(second, 2 if quick else 3))
             names_ = [x for x in names_ if len(specs[x][0]) == 1 or x in keep]
             ctx.count('second-order-subsampled')
         for name in names_:
@@ -136,7 +136,7 @@ def one(ctx, i):
 
 def run(ctx):
     import check
-    check.pmap(ctx, 'props.c06', 'one', list(range(64 if ctx.quick else 300)), case_timeout=240 if ctx.quick else 1500)
+    check.pmap(ctx, 'props.c06', 'one', list(range(64 if ctx.quick else 160)), case_timeout=240 if ctx.quick else 1500)
 
 
 def replay(ctx, payload):
